@@ -389,7 +389,12 @@ class TaskOutputs:
         trg_to_msg = {
             v: k for k, v in self._message_to_trigger.items()
         }
-        return self.set_message_complete(trg_to_msg[trigger], forced)
+        message = trg_to_msg.get(trigger)
+        if message is None:
+            # the output does not apply, e.g. it was recorded in the DB
+            # before the task definition was changed or removed
+            return None
+        return self.set_message_complete(message, forced)
 
     def set_message_complete(
         self, message: str, forced=False
